@@ -1,25 +1,25 @@
 SPECIFICATION Spec
 CONSTANTS
-  Unary = {u1, u2, u3}
+  Unary = {u1}
   Subs = {}
-  Notifs = {n1}
-  Retry = {}
+  Notifs = {}
+  Retry = {r1}
   NVals = 0
-  MaxGen = 0
-  MaxFaults = 0
+  MaxGen = 2
+  MaxFaults = 2
   AllowStop = FALSE
-  AllowCancel = TRUE
+  AllowCancel = FALSE
   Reconnect = TRUE
-  MaxAttempts = 1
+  MaxAttempts = 2
   FixExitOrder = FALSE
   FixReadErr = TRUE
-  FixStaleDelete = FALSE
-INVARIANT TypeOK
+  FixStaleDelete = TRUE
 INVARIANT OwnResult
 INVARIANT MailboxOwn
 INVARIANT AtMostOnce
 INVARIANT AnsweredExecuted
-INVARIANT NoIdForNotif
-INVARIANT CtxDoneOnlyIfCancelled
+INVARIANT OwnValuesPrefix
+INVARIANT BufferedOwn
 INVARIANT NoLostCall
+INVARIANT NoStaleOpenSink
 CHECK_DEADLOCK FALSE
